@@ -13,10 +13,10 @@ anything else the code did (function executed *and* rejected, no action taken, f
 from __future__ import annotations
 
 import asyncio
-from datetime import timedelta
 
 from . import vtime
 from .core import HarnessError
+from .memhist import DAY, HOUR, spell
 from .sched import Sched, gated
 from .vtime import CLOCK, BASE, TICK
 
@@ -32,18 +32,16 @@ class ScriptedOther(KeyError):
     """a scripted exception outside the breaker's `exceptions`"""
 
 
+# style["form"] -> memhist.spell form: how a period / ttl of so many ticks is written down for the decorator
+# (int when whole seconds, float, timedelta - `days` field non-zero from one day on -, '90s', '1d1m30s', '1d0h1m30s',
+# ' 1D1M30S ', bare digits).  The model gets the ticks; the two sides never share a conversion.
+SPELL = {"int": "i", "float": "f", "timedelta": "td", "str": "ss", "strc": "s", "str4": "s4", "strU": "sU", "digits": "sn"}
+
+
 def secs(ticks: int, form: str):
-    """a period/ttl of `ticks` eighths of a second in one of the spellings the facade accepts"""
-    s = ticks / 8
-    if form == "float":
-        return s
-    if form == "timedelta":
-        return timedelta(seconds=s)
-    if form == "str" and ticks % 8 == 0:
-        return f"{ticks // 8}s"
-    if ticks % 8 == 0:
-        return ticks // 8
-    return s
+    """a period/ttl of `ticks` eighths of a second in one of the spellings the facade accepts (a form that cannot
+    express a fraction of a second falls back to the float)"""
+    return spell(ticks, SPELL[form])
 
 
 def case_line(kind: str, p: dict) -> str:
@@ -65,10 +63,16 @@ def decorate(cache, kind: str, p: dict, style: dict, body):
     def action(*a, **k):
         return ACTION_TOKEN
 
+    def arg(ticks):
+        """the duration as written; `style["callable"]` (limiters only): a callable of the call's arguments returning it
+        (`ttl_to_seconds(..., with_callable=True)` calls it on every call and converts what it returns)"""
+        obj = secs(ticks, form)
+        return (lambda *a, **k: obj) if style.get("callable") else obj
+
     if kind == "fixed":
-        kw = dict(limit=p["limit"], period=secs(p["period"], form))
+        kw = dict(limit=p["limit"], period=arg(p["period"]))
         if p.get("ttl") is not None:
-            kw["ttl"] = secs(p["ttl"], form)
+            kw["ttl"] = arg(p["ttl"])
         if custom:
             kw["action"] = action
         if style.get("direct"):
@@ -76,7 +80,7 @@ def decorate(cache, kind: str, p: dict, style: dict, body):
             return rate_limit(cache, key="lim", **kw)(body)
         return cache.rate_limit(key="lim", **kw)(body)
     if kind == "slide":
-        kw = dict(limit=p["limit"], period=secs(p["period"], form))
+        kw = dict(limit=p["limit"], period=arg(p["period"]))
         if custom:
             kw["action"] = action
         if style.get("direct"):
@@ -344,27 +348,50 @@ def run_conc(case: dict, schedule=None):
 
 LIMITS = (1, 2, 3)
 PERIODS = (8, 16, 32)
+# long periods / ttls (90 s ... a week; with and without a seconds part below the day, one with a fraction of a second):
+# only such values make the spellings differ in more than their type - a timedelta has a non-zero `days` field, the
+# composite strings use the d / h / m units.  The virtual clock crosses them for free (purge task off).
+LONG_PERIODS = (8 * 90, HOUR, DAY - 8, DAY, DAY + 8, DAY + 8 * 90, DAY + HOUR, 36 * HOUR, 2 * DAY, 2 * DAY + 4, 7 * DAY)
+LONG_SHARE = 0.3
 RATES = (1, 34, 50, 99)          # errors_rate = 100 is refused by the decorator's own `assert 0 < errors_rate < 100`
 MIN_CALLS = (1, 2, 3)
-FORMS = ("int", "float", "str", "timedelta")
+FORMS = ("int", "float", "str", "timedelta", "timedelta", "strc", "str4", "strU", "digits")
 
 
-def gen_params(rng, kind: str) -> dict:
-    period = rng.choice(PERIODS)
+def gen_params(rng, kind: str, long: bool = False) -> dict:
+    period = rng.choice(LONG_PERIODS if long else PERIODS)
+    # a ban / open ttl from the same family: a long one next to a short period and the other way round as well
+    other = rng.choice(LONG_PERIODS) if long and rng.random() < 0.5 else None
     if kind == "fixed":
-        ttl = rng.choice([None, period // 2, period, period * 2, period + 1, 1])
+        ttl = rng.choice([None, period // 2, period, period * 2, period + 1, 1] + ([other] if other else []))
         return {"limit": rng.choice(LIMITS), "period": period, "ttl": ttl}
     if kind == "slide":
         return {"limit": rng.choice(LIMITS), "period": period}
-    return {"rate": rng.choice(RATES), "period": period, "ttl": rng.choice([period // 2, period, period * 2, 4]),
+    return {"rate": rng.choice(RATES), "period": period, "ttl": rng.choice([period // 2, period, period * 2, 4] + ([other] if other else [])),
             "min_calls": rng.choice(MIN_CALLS)}
 
 
-def gen_style(rng, kind: str) -> dict:
-    st = {"form": rng.choice(FORMS), "purge": rng.random() < 0.3}
+def component_marks(*durations: int) -> list[int]:
+    """waits that tell a long duration from a mis-converted one: just past what is left of it when a unit of its
+    (days, hours, minutes, seconds) decomposition is dropped or kept alone, while still inside the real duration"""
+    out = []
+    for d in durations:
+        if d and d >= 8 * 60:
+            for unit in (DAY, HOUR, 8 * 60):
+                for part in (d % unit, d - d % unit):
+                    if 0 < part < d:
+                        out += [part + 1, part + 8]
+            out += [d // 2, d // 8 + 1]
+    return [m for m in out if m > 0]
+
+
+def gen_style(rng, kind: str, long: bool = False) -> dict:
+    # purge task on: every purge tick of a wait is a turn of the real loop - not with waits of hours and days
+    st = {"form": rng.choice(FORMS), "purge": rng.random() < 0.3 and not long}
     if kind != "breaker":
         st["action"] = rng.choice(["default", "custom"])
         st["direct"] = rng.random() < 0.15
+        st["callable"] = rng.random() < 0.12
     else:
         st["exc"] = rng.choice(["default", "value"])
     return st
@@ -377,6 +404,9 @@ def gen_calls(rng, kind: str, p: dict, style: dict, maxlen: int, strict: bool) -
     ttl = p.get("ttl") or period
     marks = [period - 1, period, period + 1, ttl - 1, ttl, ttl + 1, period // 2, 2 * period + 1, 3 * max(period, ttl)]
     marks = [m for m in marks if m > 0]
+    extra = component_marks(period, ttl)
+    if extra:
+        marks += rng.sample(extra, min(len(extra), 6))
     n = rng.randint(1, maxlen)
     calls = []
     pending = None                  # ticks still to wait to land exactly on a boundary seen from an earlier call
@@ -404,15 +434,17 @@ def gen_calls(rng, kind: str, p: dict, style: dict, maxlen: int, strict: bool) -
 
 
 def gen_seq_case(rng, kind: str, maxlen: int = 24) -> dict:
-    p = gen_params(rng, kind)
-    style = gen_style(rng, kind)
+    long = rng.random() < LONG_SHARE
+    p = gen_params(rng, kind, long)
+    style = gen_style(rng, kind, long)
     strict = kind != "fixed" or rng.random() < 0.5
     return {"mode": "seq", "kind": kind, "p": p, "style": style,
             "calls": gen_calls(rng, kind, p, style, maxlen, strict)}
 
 
 def gen_conc_case(rng, kind: str) -> dict:
-    p = gen_params(rng, kind)
+    long = rng.random() < LONG_SHARE
+    p = gen_params(rng, kind, long)
     ntasks = rng.choice([2, 2, 3])
     if kind == "breaker":
         ocs = [rng.choice(["fail", "fail", "ok"]) for _ in range(ntasks)]
@@ -422,7 +454,8 @@ def gen_conc_case(rng, kind: str) -> dict:
         p["limit"] = rng.choice([1, 1, 2])
     period = p["period"]
     ttl = p.get("ttl") or period
-    ticks = [rng.choice([1, 1, period - 1, period, ttl, period + 1]) for _ in range(rng.choice([0, 1, 2, 3]))]
+    ticks = [rng.choice([1, 1, period - 1, period, ttl, period + 1] + component_marks(period, ttl)[:6]) for _ in range(rng.choice([0, 1, 2, 3]))]
     schedule = [rng.randint(0, 3) for _ in range(40)]
-    style = {"form": "int", "action": rng.choice(["default", "custom"])} if kind != "breaker" else {"form": "int", "exc": "default"}
+    form = rng.choice(FORMS)
+    style = {"form": form, "action": rng.choice(["default", "custom"])} if kind != "breaker" else {"form": form, "exc": "default"}
     return {"mode": "conc", "kind": kind, "p": p, "style": style, "tasks": ocs, "ticks": ticks, "schedule": schedule}
